@@ -8,8 +8,10 @@ if ! git -C /repo diff --quiet; then echo "repo dirty, refusing"; exit 2; fi
 git -C /repo apply --check "$PATCH" 2>/dev/null || { echo "PATCH-DOES-NOT-APPLY $PATCH"; exit 3; }
 git -C /repo apply "$PATCH"
 for sd in $SEEDS; do
-  out=$(VERIF_SEED=$sd ./check $PROP --tier quick 2>&1 | grep -E "^(OK|VIOLATION|KNOWN)" | tr '\n' ' ')
-  echo "seed=$sd $PROP: ${out:0:300}"
+  all=$(VERIF_SEED=$sd ./check $PROP --tier quick 2>&1)
+  out=$(echo "$all" | grep -E "^(OK|VIOLATION)" | tr '\n' ' ')
+  nk=$(echo "$all" | grep -c "^KNOWN-FINDING")
+  echo "seed=$sd $PROP: ${out:0:300} [known-finding lines: $nk]"
   for f in replays/${PROP}_*.json; do [ -f "$f" ] && python3 -c "
 import json,sys
 r=json.load(open('$f')); print('     ', '$f'.split('/')[-1][:40], r.get('signature'), str(r.get('detail'))[:160].replace('\n',' '), [b['what'] for b in r.get('no_longer_checks',[])][:3])"; done
